@@ -452,6 +452,366 @@ def result_and_sequence_cases(cname, helper, counter):
                    'npos': npos, 'order': 'sequence', 'then': h2}
 
 
+# ---------------------------------------------------------------------------------------------
+# Registration part (oracle-only): the REAL `register_namespace` of the four real peers.
+# "the namespace the object was registered for" (the key under which the peer files the object and
+# dispatches to it) and "the namespace its helpers use when the namespace is omitted" must be the
+# same string, for every name `register_namespace` accepts.
+
+# peer class -> (namespace class, helpers, attribute of the object that holds the peer)
+PEERS = {
+    'Server': ('Namespace', SERVER_HELPERS, 'server'),
+    'AsyncServer': ('AsyncNamespace', SERVER_HELPERS, 'server'),
+    'Client': ('ClientNamespace', CLIENT_HELPERS, 'client'),
+    'AsyncClient': ('AsyncClientNamespace', CLIENT_HELPERS, 'client'),
+}
+# every one of these is accepted by the real register_namespace of the unchanged tree (it accepts any name)
+REG_REAL_NAMES = REG_NAMESPACES + [
+    'chat', '/chat', 'a/b', 'é', '/chat/', 'chat/', '//', '//x', ' ', ' /lead', '/trail ', '/Chat', 'CHAT',
+    '/a b', '*', '/*', '*x', '', '/x?y=1', '/x,y', 'x,y', '/' + chr(0x2603), chr(0x2603), '/0', '0', '/\n', '\\chat',
+]
+
+
+def reg_effective(name):
+    return name or '/'
+
+
+def reg_cases(ctx):
+    """every peer x every name alone (exhaustive), plus random groups of 2-4 objects on ONE peer (names with
+    pairwise different effective namespaces, in random order; sometimes one object registered twice)"""
+    rng = ctx.rng
+    for peer in PEERS:
+        for name in REG_REAL_NAMES:
+            yield {'peer': peer, 'names': [name], 'again': None}
+        for _ in range(ctx.scale(12, 120)):
+            pool = list(REG_REAL_NAMES)
+            rng.shuffle(pool)
+            names, seen = [], set()
+            for n in pool:
+                if reg_effective(n) not in seen:
+                    seen.add(reg_effective(n))
+                    names.append(n)
+                if len(names) == rng.randint(2, 4):
+                    break
+            yield {'peer': peer, 'names': names,
+                   'again': rng.randrange(len(names)) if rng.random() < 0.3 else None}
+
+
+def reg_keys(peer, obj):
+    return [k for k, v in peer.namespace_handlers.items() if v is obj]
+
+
+def reg_execute(case, loop):
+    """real peer, real register_namespace; then the peer's same-named methods are wrapped by recorders (instance
+    attributes of the REAL peer) and every helper is called with required arguments only. -> observation"""
+    s = sio_mod()
+    peer_cls = getattr(s, case['peer'])
+    ns_cname, helpers, attr = PEERS[case['peer']]
+    ns_cls = getattr(s, ns_cname)
+    peer = peer_cls()
+    out = {'objects': [], 'rejected': []}
+    objs = []
+    for name in case['names']:
+        try:
+            obj = ns_cls(name)
+            peer.register_namespace(obj)
+        except Exception as ex:      # noqa — a name the library refuses is outside the domain
+            out['rejected'].append([name, type(ex).__name__])
+            continue
+        objs.append((name, obj))
+    if case.get('again') is not None and case['again'] < len(objs):
+        try:
+            peer.register_namespace(objs[case['again']][1])
+        except Exception as ex:      # noqa
+            out['rejected'].append([objs[case['again']][0], 'again: ' + type(ex).__name__])
+    calls = []
+
+    def recorder(hname, real):
+        def rec(*a, **k):
+            calls.append((hname, a, k))
+            return None
+
+        async def arec(*a, **k):
+            return rec(*a, **k)
+        return arec if inspect.iscoroutinefunction(real) else rec
+    for h in helpers:
+        real = getattr(peer_cls, h, None)
+        if real is not None:
+            setattr(peer, h, recorder(h, real))
+    for name, obj in objs:
+        o = {'name': name, 'namespace_attr': getattr(obj, 'namespace', '<no attribute>'),
+             'keys': reg_keys(peer, obj), 'peer_is_set': getattr(obj, attr, None) is peer, 'helpers': {}}
+        for h in helpers:
+            fn = getattr(type(obj), h, None)
+            real = getattr(peer_cls, h, None)
+            if fn is None or real is None:
+                continue
+            if 'namespace' not in inspect.signature(real).parameters:
+                continue                    # (ClientNamespace.disconnect: the target has no namespace)
+            req = [p for p, d in sig_params(fn)[0] if not d]
+            del calls[:]
+            try:
+                r = getattr(obj, h)(**{p: Sentinel(p) for p in req})
+                if inspect.iscoroutine(r):
+                    r = loop.run_until_complete(r)
+                if inspect.iscoroutine(r):
+                    r.close()
+            except Exception as ex:      # noqa
+                o['helpers'][h] = {'exc': '%s: %s' % (type(ex).__name__, str(ex)[:100])}
+                continue
+            if len(calls) != 1 or calls[0][0] != h:
+                o['helpers'][h] = {'exc': 'made the calls %r' % ([c[0] for c in calls],)}
+                continue
+            try:
+                ba = inspect.signature(real).bind(peer, *calls[0][1], **calls[0][2])
+                o['helpers'][h] = {'namespace': ba.arguments.get('namespace', '<absent>')}
+            except TypeError as ex:
+                o['helpers'][h] = {'exc': 'call does not fit: %s' % ex}
+        out['objects'].append(o)
+    return out
+
+
+def reg_oracle(case, out):
+    bad = []
+    for o in out['objects']:
+        keys = o['keys']
+        who = '%s(%r) registered with the real %s.register_namespace' % (PEERS[case['peer']][0], o['name'], case['peer'])
+        if not o['peer_is_set']:
+            bad.append('%s: its .%s is not that %s' % (who, PEERS[case['peer']][2], case['peer']))
+        if len(keys) != 1:
+            bad.append('%s is reachable under %d keys %r of namespace_handlers instead of exactly one'
+                       % (who, len(keys), keys))
+            continue
+        key = keys[0]
+        if not same_ns(key, o['namespace_attr']):
+            bad.append('%s is filed under %r (the namespace it is registered for) but its .namespace, the helpers\' '
+                       'fallback, is %r' % (who, key, o['namespace_attr']))
+        wrong = {}
+        for h, r in o['helpers'].items():
+            if 'exc' in r:
+                bad.append('%s: %s() with the namespace omitted: %s' % (who, h, r['exc']))
+            elif not same_ns(r['namespace'], key):
+                wrong.setdefault(repr(r['namespace']), []).append(h)
+        for got, hs in wrong.items():
+            bad.append('%s is registered for %r, but with the namespace omitted %s go to %s'
+                       % (who, key, ', '.join(hs), got))
+    return bad
+
+
+def wire_addressable(s, key):
+    """can a client name this namespace in a packet? (judged by the real codec: encode, decode, same namespace)"""
+    try:
+        enc = s.packet.Packet(s.packet.CONNECT, namespace=key).encode()
+        dec = s.packet.Packet(encoded_packet=enc)
+        return isinstance(enc, str) and (dec.namespace or '/') == key and dec.packet_type == s.packet.CONNECT \
+            and not dec.data
+    except Exception:      # noqa
+        return False
+
+
+def e2e_execute(case):
+    """real Server / AsyncServer on in-memory transports: the object is registered with the real register_namespace,
+    a client CONNECTs to the key the object is filed under and sends an event; the object's methods call helpers with
+    the namespace omitted. -> observation"""
+    from .. import world as W
+    s = sio_mod()
+    is_async = case['mode'] == 'asyncio'
+    seen = {'connect': [], 'ev': [], 'errors': []}
+
+    if is_async:
+        class Obj(s.AsyncNamespace):
+            async def on_connect(self, sid, environ):
+                seen['connect'].append(sid)
+                try:
+                    await self.emit('from-connect', {'n': 0}, to=sid)
+                except Exception as ex:      # noqa
+                    seen['errors'].append('emit in on_connect: %r' % ex)
+
+            async def on_ev(self, sid, *data):
+                seen['ev'].append(sid)
+                for what in ('enter_room', 'rooms', 'emit-to', 'emit-all', 'send', 'save_session', 'get_session'):
+                    try:
+                        if what == 'enter_room':
+                            await self.enter_room(sid, 'lobby')
+                        elif what == 'rooms':
+                            seen['rooms'] = list(self.rooms(sid))
+                        elif what == 'emit-to':
+                            await self.emit('reply', {'n': 1}, to=sid)
+                        elif what == 'emit-all':
+                            await self.emit('all', {'n': 2})
+                        elif what == 'send':
+                            await self.send('msg', room='lobby')
+                        elif what == 'save_session':
+                            await self.save_session(sid, {'k': 'v'})
+                        else:
+                            seen['session'] = await self.get_session(sid)
+                    except Exception as ex:      # noqa
+                        seen['errors'].append('%s in on_ev: %r' % (what, ex))
+    else:
+        class Obj(s.Namespace):
+            def on_connect(self, sid, environ):
+                seen['connect'].append(sid)
+                try:
+                    self.emit('from-connect', {'n': 0}, to=sid)
+                except Exception as ex:      # noqa
+                    seen['errors'].append('emit in on_connect: %r' % ex)
+
+            def on_ev(self, sid, *data):
+                seen['ev'].append(sid)
+                for what in ('enter_room', 'rooms', 'emit-to', 'emit-all', 'send', 'save_session', 'get_session'):
+                    try:
+                        if what == 'enter_room':
+                            self.enter_room(sid, 'lobby')
+                        elif what == 'rooms':
+                            seen['rooms'] = list(self.rooms(sid))
+                        elif what == 'emit-to':
+                            self.emit('reply', {'n': 1}, to=sid)
+                        elif what == 'emit-all':
+                            self.emit('all', {'n': 2})
+                        elif what == 'send':
+                            self.send('msg', room='lobby')
+                        elif what == 'save_session':
+                            self.save_session(sid, {'k': 'v'})
+                        else:
+                            seen['session'] = self.get_session(sid)
+                    except Exception as ex:      # noqa
+                        seen['errors'].append('%s in on_ev: %r' % (what, ex))
+    w = W.ServerWorld(case['mode'])
+    out = {'keys': None, 'addressable': False, 'seen': seen, 'packets': [], 'accepted': None}
+    try:
+        others = [Obj(n) for n in case.get('others', [])]
+        obj = Obj(case['name'])
+        for o in others[:len(others) // 2] + [obj] + others[len(others) // 2:]:
+            w.sio.register_namespace(o)
+        keys = reg_keys(w.sio, obj)
+        out['keys'] = keys
+        out['namespace_attr'] = obj.namespace
+        if len(keys) != 1 or not wire_addressable(s, keys[0]):
+            return out
+        key = keys[0]
+        out['addressable'] = True
+        w.open('t1')
+        w.recv('t1', s.packet.Packet(s.packet.CONNECT, namespace=key).encode())
+        w.settle()
+        first = W.decode_frames(w.sent('t1'))
+        out['packets'] += first
+        out['accepted'] = any(p[0] == s.packet.CONNECT and p[1] == key for p in first)
+        if not out['accepted']:
+            return out
+        w.recv('t1', s.packet.Packet(s.packet.EVENT, data=['ev', 1], namespace=key).encode())
+        w.settle()
+        out['packets'] += W.decode_frames(w.sent('t1'))
+        sid = seen['connect'][0] if seen['connect'] else None
+        out['sid_rooms_at_key'] = w.api('rooms', sid, namespace=key) if sid else None
+    finally:
+        w.close()
+    return out
+
+
+def e2e_oracle(case, out):
+    s = sio_mod()
+    bad = []
+    if not out['addressable']:
+        return bad          # registry agreement is judged by the registration part; nothing to connect to here
+    key = out['keys'][0]
+    who = '%s(%r), filed under %r by the real register_namespace' % (
+        'AsyncNamespace' if case['mode'] == 'asyncio' else 'Namespace', case['name'], key)
+    if not out['accepted']:
+        return ['%s: a client CONNECT to %r is refused: %r' % (who, key, out['packets'][:3])]
+    seen = out['seen']
+    if len(seen['connect']) != 1:
+        return ['%s: CONNECT to %r accepted but on_connect of the object ran %d times' % (who, key, len(seen['connect']))]
+    events = [(p[1], p[3][0]) for p in out['packets'] if p[0] == s.packet.EVENT and isinstance(p[3], list) and p[3]]
+    for e in seen['errors']:
+        bad.append('%s: helper with the namespace omitted, called from the object\'s own handler for a client of %r, '
+                   'failed: %s' % (who, key, e))
+    if (key, 'from-connect') not in events:
+        bad.append('%s: emit(to=sid) from on_connect with the namespace omitted produced no packet on %r; the client '
+                   'received %r' % (who, key, events))
+    if len(seen['ev']) != 1:
+        bad.append('%s: the event the client sent on %r reached on_ev %d times' % (who, key, len(seen['ev'])))
+        return bad
+    for name in ('reply', 'all', 'message'):
+        if (key, name) not in events:
+            bad.append('%s: emit/send %r from on_ev with the namespace omitted produced no packet on %r; the client '
+                       'received %r' % (who, name, key, events))
+    for ns, name in events:
+        if ns != key:
+            bad.append('%s: the client received %r on namespace %r' % (who, name, ns))
+    if 'lobby' not in (seen.get('rooms') or []):
+        bad.append('%s: rooms(sid) with the namespace omitted does not show the room just entered: %r'
+                   % (who, seen.get('rooms')))
+    rk = out.get('sid_rooms_at_key')
+    if not rk or rk[0] != 'ok' or 'lobby' not in (rk[1] or []):
+        bad.append('%s: after enter_room(sid, "lobby") with the namespace omitted the client is not in that room of '
+                   '%r: %r' % (who, key, rk))
+    if seen.get('session') != {'k': 'v'} and not any('session' in e for e in seen['errors']):
+        bad.append('%s: get_session(sid) after save_session(sid, …), both with the namespace omitted, gives %r'
+                   % (who, seen.get('session')))
+    return bad
+
+
+def e2e_cases(ctx):
+    rng = ctx.rng
+    for mode in ('threading', 'asyncio'):
+        for name in REG_REAL_NAMES:
+            pool = [n for n in REG_REAL_NAMES if reg_effective(n) != reg_effective(name) and n != '*']
+            yield {'mode': mode, 'name': name, 'others': rng.sample(pool, rng.randint(0, 2))}
+
+
+def run_registration(ctx, loop):
+    s = sio_mod()
+    n_reg = n_objs = n_helper_calls = n_e2e = n_e2e_conn = 0
+    fails = e2e_fails = 0
+    for case in reg_cases(ctx):
+        out = reg_execute(case, loop)
+        n_reg += 1
+        n_objs += len(out['objects'])
+        n_helper_calls += sum(len(o['helpers']) for o in out['objects'])
+        ctx.count('registration.peer.' + case['peer'])
+        for o in out['objects']:
+            ctx.count('registration.name.' + ('default' if reg_effective(o['name']) == '/' else 'catch_all'
+                                              if o['name'] == '*' else 'leading_slash' if o['name'].startswith('/')
+                                              else 'no_leading_slash'))
+        for name, why in out['rejected']:
+            ctx.count('registration.rejected_out_of_domain')
+        bad = reg_oracle(case, out)
+        if bad:
+            fails += 1
+            if fails <= 6:
+                ctx.violation('oracle', 'registration: ' + '; '.join(bad[:3]),
+                              {'reg_case': case, 'complaints': bad[:12], 'observed': out['objects']})
+    for case in e2e_cases(ctx):
+        out = e2e_execute(case)
+        n_e2e += 1
+        ctx.count('registration.e2e.' + ('connected' if out['accepted'] else 'not_wire_addressable'
+                                         if not out['addressable'] else 'refused'))
+        n_e2e_conn += bool(out['accepted'])
+        bad = e2e_oracle(case, out)
+        if bad:
+            fails += 1
+            e2e_fails += 1
+            if e2e_fails <= 6:
+                ctx.violation('oracle', 'registration, end to end: ' + '; '.join(bad[:3]),
+                              {'e2e_case': case, 'complaints': bad[:12], 'packets': repr(out['packets'])[:600],
+                               'handler_saw': repr(out['seen'])[:400]})
+    ctx.coverage['registration'] = {
+        'level': 'oracle-only (no Lean kernel models the registry of class-based namespaces)',
+        'register_namespace_scenarios': n_reg, 'objects_registered': n_objs,
+        'helper_calls_with_namespace_omitted_on_wrapped_real_peer': n_helper_calls,
+        'end_to_end_scenarios': n_e2e, 'end_to_end_client_connected_to_registry_key': n_e2e_conn,
+        'names': REG_REAL_NAMES, 'oracle_failures': fails,
+        'rule': 'real Server/AsyncServer/Client/AsyncClient().register_namespace(obj) for every name alone and random '
+                'groups of 2-4 objects on one peer (one sometimes registered twice): obj is reachable under exactly one '
+                'key of namespace_handlers, that key == obj.namespace, and every helper called with the namespace omitted '
+                'passes that key to the (wrapped) real peer; end to end on ServerWorld (sync and asyncio): CONNECT to the '
+                'key (when the real codec can carry it) is accepted, on_connect / on_ev of the object call emit, send, '
+                'enter_room, rooms, save_session, get_session with the namespace omitted and the packets / membership / '
+                'session appear on that same namespace',
+    }
+    return n_reg + n_e2e
+
+
 def validate_rows(ctx, rows):
     """static part of translator validation: signatures in the table == run-time signatures"""
     s = sio_mod()
@@ -589,6 +949,7 @@ def run(ctx):
                             cname not in [x['cls'] for x in samples]:
                         samples.append({'cls': cname, 'call': describe(case)['call'],
                                         'reached': repr(obs['stub'].calls)[:300], 'model': want})
+        n_registration = run_registration(ctx, loop)
     finally:
         loop.close()
     if stats['model_none'] and not any(v['kind'] == 'proof' for v in ctx.violations):
@@ -606,6 +967,9 @@ def run(ctx):
         for v in ctx.violations:
             c = v['replay'].get('case', {}) if isinstance(v['replay'], dict) else {}
             key = (v['kind'], v['no_input'], c.get('cls'), c.get('helper'), c.get('order') == 'sequence')
+            if isinstance(v['replay'], dict) and ('reg_case' in v['replay'] or 'e2e_case' in v['replay']):
+                rc = v['replay'].get('reg_case') or v['replay'].get('e2e_case')
+                key = (v['kind'], 'reg_case' in v['replay'], rc.get('peer'), rc.get('mode'))
             if key not in seen:
                 seen.add(key)
                 kept.append(v)
@@ -626,6 +990,7 @@ def run(ctx):
                 'registered namespace rotates over ' % N_RESULTS + 
                 '%r. non-trivial = at least one explicit falsy argument' % (REG_NAMESPACES,),
         'samples': samples, 'traces_validated_against_impl': n_exec,
+        'registration_scenarios': n_registration,
         'oracle_failures': stats['oracle_fail'], 'model_disagreements': stats['model_fail'],
         'model_could_not_evaluate': stats['model_none'],
     })
@@ -640,6 +1005,23 @@ def run(ctx):
 def replay(ctx, r):
     rep = r.get('replay', r)
     print(json.dumps(r, indent=1, default=str)[:3000])
+    if isinstance(rep, dict) and ('reg_case' in rep or 'e2e_case' in rep):
+        loop = asyncio.new_event_loop()
+        try:
+            if 'reg_case' in rep:
+                out = reg_execute(rep['reg_case'], loop)
+                complaints = reg_oracle(rep['reg_case'], out)
+                print('registered     :', json.dumps(out['objects'], default=str))
+            else:
+                out = e2e_execute(rep['e2e_case'])
+                complaints = e2e_oracle(rep['e2e_case'], out)
+                print('registry keys  :', out['keys'], ' .namespace:', out.get('namespace_attr'))
+                print('client received:', out['packets'])
+                print('handlers saw   :', out['seen'])
+        finally:
+            loop.close()
+        print('oracle verdict :', 'holds' if not complaints else 'VIOLATED: ' + '; '.join(complaints))
+        return 1 if complaints else 0
     case = rep.get('case') if isinstance(rep, dict) else None
     if not isinstance(case, dict) or 'given' not in case:
         print('no executable case in this replay (theorem / translator failure): rerun ./check C17')
